@@ -30,16 +30,17 @@ JoinText(j) == CASE j = "|" -> <<"|">> [] j = "->" -> <<"-", ">">> [] j = ";" ->
 
 \* argument forms of a command segment (inner = the command inside a block / sub-shell)
 ArgFormNames == {"none", "plain", "quoted", "block", "subshell", "arraysub", "var", "redirect", "append", "pipefile", "escaped",
-                 "parensub", "bqsub", "dqsub", "nestparensub"}
+                 "parensub", "bqsub", "dqsub", "nestparensub", "tblock"}
 \* a sub-shell is evaluated inside double quotes and inside ( ) / %( ) strings as well
 SubForms == {"subshell", "arraysub", "parensub", "bqsub", "dqsub", "nestparensub"}
-NeedsInner(f) == f \in {"block"} \cup SubForms
+NeedsInner(f) == f \in {"block", "tblock"} \cup SubForms
 ArgText(f, inner) ==
     CASE f = "none"     -> <<>>
       [] f = "plain"    -> <<"x">>
       [] f = "quoted"   -> <<"SQ", "x", "SP", "y", "SQ">>
       [] f = "escaped"  -> <<"x", "BS", "SP", "y">>
       [] f = "block"    -> <<"{", "SP">> \o inner \o <<"SP", "}">>
+      [] f = "tblock"   -> <<"{">> \o inner \o <<"}">>                \* the command sits right against both braces
       [] f = "subshell" -> <<"$", "{">> \o inner \o <<"}">>
       [] f = "arraysub" -> <<"@", "{">> \o inner \o <<"}">>
       [] f = "parensub" -> <<"(", "$", "{">> \o inner \o <<"}", ")">>
